@@ -311,7 +311,8 @@ def install(ctx, repo, probes):
     probes.wrap(TR, "get_first_after", post_first_after)
     ctx.target("same-object-other-mode", "binary-fraction-interval",
                "probe/far-along", "first_after/far-along",
-               "fractional-second-anchor")
+               "fractional-second-anchor", "probe/formatting-attributes",
+               "first_after/far-nominal")
     ctx.target("probe/sub-second-near-miss", "is_valid/True", "is_valid/False", "getitem/in", "getitem/out",
                "next/member", "next/none", "prev/member", "prev/none",
                "first_after/none", "first_after/last-member",
@@ -411,6 +412,16 @@ def run_case(ctx, repo, case):
                 kw["minute_of_hour_decimal"] = s_ / 60.0
                 if s_ % 15 == 0:
                     probes.append(kw)
+        # members carrying formatting attributes (as a parser with
+        # dump_as_parsed / dump_format / expanded year digits leaves them)
+        for m in (pts + tail)[:3] + (pts + tail)[-2:]:
+            kw = _kwargs_of(m)
+            kw["dump_format"] = rng.choice(("CCYY-MM-DDThh:mm:ssZ",
+                                            "CCYYDDDThhmm+hhmm"))
+            if rng.random() < 0.5:
+                kw["num_expanded_year_digits"] = 2
+            probes.append(kw)
+            ctx.cls("probe/formatting-attributes")
         # near misses: a fraction of a second beside a member (the decimal
         # second is a multiple of 1/4, so the arithmetic stays exact)
         for i in insts[:3] + insts[-2:]:
@@ -440,6 +451,36 @@ def run_case(ctx, repo, case):
                 rec[i]
             except IndexError:
                 pass
+        for fkw in case.get("far_probes", ()):
+            # centuries along a month/year series: the answer is the first
+            # iterated point later than the probe (iteration is the series)
+            ctx.ev("first_after.far-nominal")
+            fp = repo.tp(fkw)
+            ifp = R.tp_instant(mode, fp)
+            ctx.in_oracle += 1
+            try:
+                want = None
+                for m in rec:
+                    if R.tp_instant(mode, m) > ifp:
+                        want = m
+                        break
+            finally:
+                ctx.in_oracle -= 1
+            try:
+                got = rec.get_first_after(fp)
+            except Exception as exc:
+                got = exc
+            if isinstance(got, Exception) or (got is None) != (want is None) \
+                    or (got is not None and R.tp_instant(mode, got) !=
+                        R.tp_instant(mode, want)):
+                ctx.violation("first_after", "get_first_after(%r) = %r far "
+                              "along %r; iteration gives %r" % (
+                                  R.tp_key(fp),
+                                  got if isinstance(got, Exception) or
+                                  got is None else R.tp_key(got), desc,
+                                  None if want is None else R.tp_key(want)))
+            else:
+                ctx.cls("first_after/far-nominal")
         other = case.get("then_mode")
         if other and other != mode:
             # the same object queried again under another calendar mode (its
@@ -499,6 +540,30 @@ def workload(ctx, repo):
             ctx.case = case
             run_case(ctx, repo, case)
     if ctx.worker == 0:
+        for mode in R.MODES:
+            for day, dkw in ((31, {"months": 1}), (30, {"months": 3}),
+                             (29, {"years": 1}), (31, {"months": 5})):
+                dd = min(day, R.month_len(mode, 2000, 1))
+                start = gen.date_kwargs(mode, "cal", R.ymd_to_rd(
+                    mode, 2000, 1, dd))
+                start.update({"hour_of_day": 0, "minute_of_hour": 0,
+                              "second_of_minute": 0})
+                start.update(gen.zone_kwargs((0, 0)))
+                far = []
+                for yy, mm, d2 in ((2401, 1, 15), (2401, 2, 20),
+                                   (2801, 1, 29), (2400, 12, 31)):
+                    fkw = gen.date_kwargs(mode, "cal", R.ymd_to_rd(
+                        mode, yy, mm, min(d2, R.month_len(mode, yy, mm))))
+                    fkw.update({"hour_of_day": 0, "minute_of_hour": 0,
+                                "second_of_minute": 0})
+                    fkw.update(gen.zone_kwargs((0, 0)))
+                    far.append(fkw)
+                case = {"op": "queries", "probe_seed": day,
+                        "far_probes": far,
+                        "desc": {"mode": mode, "fmt": 3, "reps": None,
+                                 "start": start, "dur": dkw}}
+                ctx.case = case
+                run_case(ctx, repo, case)
         for mode in R.MODES:
             for y, dkw in ((-1, {"weeks": 1}), (-2, {"days": 4}),
                            (0, {"hours": 100}), (-1, {"hours": 5})):
